@@ -44,7 +44,8 @@ Record pre (s : state) : Prop := {
   p_wf : phase_wf s;
   p_stop : stopping s = true -> ph s = Idle;
   p_out : forall sid, In sid (outstanding s) -> sid < nsend s;
-  p_live : forall x, In x (live s) -> s_id x < nsend s }.
+  p_live : forall x, In x (live s) -> s_id x < nsend s;
+  p_ok : broken s = false }.        (* building / handing over requests works: outside it, finding F-C01-5 *)
 
 (* ------------------------------------------------------------------ events that take no id: from a stepsum *)
 Lemma ssum_of_stepsum : forall c s e s' o, takes_id e = false ->
@@ -81,7 +82,7 @@ Lemma batch_ssum : forall c B s e s2 o2 done s' o',
   ssum c s e s' (o2 ++ o').
 Proof.
   intros c B s e s2 o2 done s' o' T PR NI BS PB H J.
-  destruct (batch_step _ _ _ _ _ _ _ _ BS PB H) as [SS AF].
+  destruct (batch_step _ _ _ _ _ _ _ _ (p_ok _ PR) BS PB H) as [SS AF].
   apply ssum_of_stepsum; auto.
   - intros ST. rewrite (ss_stop _ _ _ SS) in ST. apply (p_stop _ PR) in ST. contradiction.
   - intros sid oc I S. apply in_app_or in I as [I|I]; [eapply J; eauto|].
